@@ -63,4 +63,7 @@ def sub_kernel(c, ctx):
         "rule": "message histories from harness/mirror delivered to the real mirror; one evaluation = one delivered message; a "
                 "process death or a model Panic is a violation", "input_distribution": stats,
     }
+    # concurrent callers of Handle* (overlapping vote messages, contexts cancelled while the kernel works on the request):
+    # the kernel must neither die nor stop answering
+    mirrorlib.mirror_concurrent(c, ["c05", "c06"], "C09 kernel under concurrent callers")
     c.samples.append({"kernel_case_first_ops": [op[:300] for op, _, _ in (usable[0]["steps"][:2] if usable else [])]})
